@@ -3,6 +3,7 @@ package lib
 import (
 	"bytes"
 	"encoding/json"
+	"fmt"
 	"math/rand"
 	"os"
 	"path/filepath"
@@ -276,4 +277,35 @@ func mutateKeyword(r *rand.Rand, v any) bool {
 	wrong := []any{json.Number("5"), true, nil, map[string]any{}, []any{}, []any{json.Number("1"), map[string]any{"@id": json.Number("2")}}, map[string]any{"@value": map[string]any{}}, "", "_:", []any{[]any{}}, map[string]any{"@list": []any{map[string]any{"@list": []any{}}}}}
 	s.m[s.k] = wrong[r.Intn(len(wrong))]
 	return true
+}
+
+// FlattenCanon returns a canonical rendering of the document's flattened form (nodes sorted by @id, values of a
+// property kept in order) as computed by json-gold run independently in the harness; used only to verify that two
+// documents generated by the harness denote the same graph before they are given to the code under test.
+func FlattenCanon(text string) (string, error) {
+	v, ok := ReadableJSON(text)
+	if !ok {
+		return "", fmt.Errorf("not JSON")
+	}
+	proc := ld.NewJsonLdProcessor()
+	opts := ld.NewJsonLdOptions("")
+	fl, err := proc.Flatten(v, nil, opts)
+	if err != nil {
+		return "", err
+	}
+	arr, _ := fl.([]any)
+	sort.Slice(arr, func(i, j int) bool {
+		a, _ := arr[i].(map[string]any)["@id"].(string)
+		b, _ := arr[j].(map[string]any)["@id"].(string)
+		return a < b
+	})
+	for _, n := range arr {
+		if m, ok := n.(map[string]any); ok {
+			if ts, ok := m["@type"].([]any); ok {
+				sort.Slice(ts, func(i, j int) bool { return fmt.Sprint(ts[i]) < fmt.Sprint(ts[j]) })
+			}
+		}
+	}
+	b, err := json.Marshal(arr)
+	return string(b), err
 }
